@@ -565,6 +565,15 @@ func (g *Grammar) Alphabet() []rune {
 						set[x] = true
 					}
 				}
+				if len(e.Class.UClasses) >= 2 {
+					// a member of each listed class that none of the other listed classes contains (a
+					// class that is dropped or absorbed by a neighbour shows only on such a rune)
+					for i, u := range e.Class.UClasses {
+						if x := sampleOnlyIn(u, e.Class.UClasses, i); x != 0 {
+							set[x] = true
+						}
+					}
+				}
 			}
 		})
 	}
@@ -592,6 +601,47 @@ func sampleUClass(name string) rune {
 	}
 	if len(t.R32) > 0 {
 		return rune(t.R32[0].Lo)
+	}
+	return 0
+}
+
+// sampleOnlyIn returns a rune of class name that is in none of the other classes of the list.
+func sampleOnlyIn(name string, all []string, self int) rune {
+	t := UnicodeTable(name)
+	if t == nil {
+		return 0
+	}
+	var others []*unicode.RangeTable
+	for j, o := range all {
+		if j != self {
+			if ot := UnicodeTable(o); ot != nil {
+				others = append(others, ot)
+			}
+		}
+	}
+	tried := 0
+	try := func(x rune) bool {
+		tried++
+		for _, ot := range others {
+			if unicode.Is(ot, x) {
+				return false
+			}
+		}
+		return true
+	}
+	for _, rg := range t.R16 {
+		for x := rune(rg.Lo); x <= rune(rg.Hi) && tried < 4000; x += rune(rg.Stride) {
+			if try(x) {
+				return x
+			}
+		}
+	}
+	for _, rg := range t.R32 {
+		for x := rune(rg.Lo); x <= rune(rg.Hi) && tried < 4000; x += rune(rg.Stride) {
+			if try(x) {
+				return x
+			}
+		}
 	}
 	return 0
 }
